@@ -490,6 +490,78 @@ func c12sameObject(c *core.Ctx) {
 			}
 		}
 	}
+	// the same for a SubscribeMessage / UnsubscribeMessage object sent twice while the first
+	// request is unacknowledged
+	for _, kind := range []string{"Subscribe", "Unsubscribe"} {
+		kind := kind
+		name := fmt.Sprintf("client: one %sMessage object sent twice", kind)
+		var viol string
+		body := func() {
+			w := NewClientWorld()
+			if !w.Connected("cid") {
+				return
+			}
+			w.Srv.Take()
+			fired := make([]int, 2)
+			var call func(k int) error
+			if kind == "Subscribe" {
+				m := message.NewSubscribeMessage()
+				m.AddTopic([]byte("s/x"), 1)
+				call = func(k int) error {
+					return w.Cl.Subscribe(m, func(msg, ack message.Message, err error) error { fired[k]++; return nil }, func(*message.PublishMessage) error { return nil })
+				}
+			} else {
+				m := message.NewUnsubscribeMessage()
+				m.AddTopic([]byte("s/x"))
+				call = func(k int) error {
+					return w.Cl.Unsubscribe(m, func(msg, ack message.Message, err error) error { fired[k]++; return nil })
+				}
+			}
+			var ids []uint16
+			for k := 0; k < 2; k++ {
+				if err := call(k); err != nil {
+					vsched.Failf("%s #%d of the same object failed: %v", kind, k+1, err)
+					return
+				}
+				w.Settle()
+				ps := w.Srv.Take()
+				if len(ps) != 1 || ps[0].ID == 0 {
+					vsched.Failf("%s #%d of the same object: on the wire %s", kind, k+1, Describe(ps))
+					return
+				}
+				if k == 1 && ps[0].ID == ids[0] {
+					vsched.Failf("%s #2 of the same object went out with identifier %d, which the unacknowledged first request uses", kind, ids[0])
+					return
+				}
+				ids = append(ids, ps[0].ID)
+			}
+			for k := 0; k < 2; k++ {
+				if kind == "Subscribe" {
+					w.ServerSend(&refcodec.Packet{Type: refcodec.SUBACK, ID: ids[k], Codes: []byte{1}})
+				} else {
+					w.ServerSend(&refcodec.Packet{Type: refcodec.UNSUBACK, ID: ids[k]})
+				}
+				w.Settle()
+			}
+			if fired[0] != 1 || fired[1] != 1 {
+				vsched.Failf("both %s requests were acknowledged: completions fired %v", kind, fired)
+			}
+		}
+		res := explore.RunDefault(body)
+		c.Rep.Executions++
+		c.Rep.States++
+		c.Rep.Transitions += int64(len(res.Points))
+		if res.Status == vsched.StCrash {
+			viol = "a library goroutine panicked: " + firstLine(res.Crash)
+		} else if len(res.Failures) > 0 {
+			viol = res.Failures[0]
+		}
+		if viol != "" {
+			if c.Violate("C12 same object :: "+violClass(viol), core.Replay{Scenario: name, Message: viol}) {
+				return
+			}
+		}
+	}
 	c.Rep.Scenarios++
 }
 
